@@ -745,6 +745,26 @@ func (c *Ctx) banRecorded() {
 				if isRefusal(r.(*ssa.Return)) {
 					continue // a non-nil error reports no success
 				}
+				if ir.IsNil(v) {
+					// a plain nil behind both operations, each found
+					// to have succeeded
+					puts := find(h, callTo(put))
+					okAll := len(puts) >= 2
+					for _, pc := range puts {
+						dom := false
+						for _, st := range errNil("Put", []ssa.Instruction{pc}, 0).sites {
+							if ir.EdgeDominates(h, st.br.Edge(), r.Block()) {
+								dom = true
+							}
+						}
+						if !dom {
+							okAll = false
+						}
+					}
+					if okAll {
+						continue
+					}
+				}
 				if ir.IsNil(v) || !(valIsCallTo(put)(v) || ir.DerivesFrom(v, valIsCallTo(put))) {
 					hbad = append(hbad, "return at "+c.at(r)+" is not the result of a Put")
 				}
